@@ -17,10 +17,17 @@ THEOREMS = [
     'PbBss.C16.jitter_cos_dominant',
     'PbBss.C16.dhtv_identity_on_dominant',
     'PbBss.C16.greedyAligner_consistent_in_domain',
+    'PbBss.C16.dhtv_majority',
+    'PbBss.C16.planOk_step_of_two_thirds',
+    'PbBss.C16.dhtv_restores_in_domain',
+    'PbBss.C16.planOk_of_first_majority',
+    'PbBss.C16.shipped_512_planOk',
+    'PbBss.C16.shipped_1024_planOk',
+    'PbBss.C16.shipped_512_plan',
 ]
 ASSUMPTIONS = [
-    'DHTV convergence under the 70 % majority / two-thirds overlap premise is NOT a theorem (needs the book-keeping of the '
-    'aligned band through the interleaved segments); it is decided by search on the real code only',
+    'DHTV convergence from a first-segment majority is a theorem for the cos and multiply metrics (dhtv_majority, '
+    'dhtv_restores_in_domain, shipped_512/1024_planOk); for the euclidean metric it is decided by search only',
     'tie-free masks: decisions within 1e-9 relative margin are counted as ties, not judged',
 ]
 
